@@ -93,6 +93,12 @@ pub fn ncores() -> usize {
         })
 }
 
+/// Multiplier for every wall-clock safety cap of the checks (`VERIF_BUDGET_SCALE`, default 1): the caps only exist
+/// so that a run on an overloaded machine ends; a run that hits one reports `exhaustive: false`.
+pub fn budget_scale() -> f64 {
+    std::env::var("VERIF_BUDGET_SCALE").ok().and_then(|s| s.parse().ok()).filter(|v: &f64| *v > 0.0).unwrap_or(1.0)
+}
+
 /// FNV-1a, good enough to name outputs.
 pub fn hash64(bytes: &[u8]) -> u64 {
     let mut h: u64 = 0xcbf29ce484222325;
